@@ -110,6 +110,10 @@ pub fn check(rec: &RunRecord, reg: &Reg, cells: &mut Cells) -> Vec<Finding> {
                 1 => {
                     let part = accepted[0].part;
                     let part_json = accepted[0].res.as_ref().unwrap();
+                    // is the addressed handler one with a native 128 bit integer parameter?
+                    let key0 = serde_json::from_slice::<Value>(&bytes).ok().and_then(|v| v.as_object().and_then(|o| o.keys().next().cloned())).unwrap_or_default();
+                    let int128 = e.spec.of_kind(kind).any(|h| h.part == part && h.wire == key0 && h.args.iter().any(|a| a.ty == "u128" || a.ty == "i128"));
+                    let shape = if int128 { "int128_param" } else { shape };
                     match &wrapper {
                         Err(err) => out.push(Finding::new("C03", "c03.wrapper_rejects", op.idx, format!("[doc-shape={}] {}: part `{}` accepts {} but the contract-level {} message rejects it: {}", shape, d.cid(), part, d.msg(), d.entry(), err))),
                         Ok(wj) => {
@@ -159,12 +163,22 @@ pub fn check(rec: &RunRecord, reg: &Reg, cells: &mut Cells) -> Vec<Finding> {
                             cells.hit(format!("c03.unknown_name|{}", d.entry()));
                             let spec_names: BTreeSet<String> = e.spec.of_kind(kind).map(|h| h.wire.to_string()).collect();
                             let text = res["err"]["text"].as_str().unwrap_or("");
-                            let listed: BTreeSet<String> = text
-                                .split("Messages supported by this contract: ")
-                                .nth(1)
-                                .map(|t| t.split(", ").map(|x| x.trim().to_string()).filter(|x| !x.is_empty()).collect())
-                                .unwrap_or_default();
-                            if listed != spec_names {
+                            // names of this contract's *other* kinds must not be offered
+                            let foreign: BTreeSet<String> = e.spec.handlers.iter().filter(|h| h.kind != kind && !h.wire.is_empty() && !spec_names.contains(h.wire)).map(|h| h.wire.to_string()).collect();
+                            let (listed, exact): (BTreeSet<String>, bool) = match text.split("Messages supported by this contract: ").nth(1) {
+                                Some(t) => (t.split(", ").map(|x| x.trim().to_string()).filter(|x| !x.is_empty()).collect(), true),
+                                // another wording: every word of the text outside the echoed document
+                                None => (
+                                    text.replace(&String::from_utf8_lossy(&bytes).to_string(), " ")
+                                        .split(|c: char| !(c.is_alphanumeric() || c == '_'))
+                                        .filter(|x| !x.is_empty())
+                                        .map(|x| x.to_string())
+                                        .collect(),
+                                    false,
+                                ),
+                            };
+                            let fine = spec_names.is_subset(&listed) && listed.is_disjoint(&foreign) && (!exact || listed.len() == spec_names.len());
+                            if !fine {
                                 out.push(Finding::new("C03", "c03.unknown_list", op.idx, format!("{}: error for unknown {} message `{}` must list exactly {:?}; it says: {}", d.cid(), d.entry(), key, spec_names, text)));
                             }
                         }
